@@ -135,19 +135,25 @@ fn build(w: &mut World) {
         // every account contributes once and redeems everything: creates the accounts' pool-unit
         // vaults and leaves the pool pristine (the only holder of units redeems all of them)
         for a in 0..NACC {
+            let acct = w.accounts[a].address;
+            let signers = vec![w.accounts[0].badge(), w.accounts[a].badge()];
             let amounts: Vec<BigInt> = idx.iter().map(|i| unit_of(res[*i].1) * 5).collect();
-            let m = contribute_manifest(&res, &info, w.accounts[a].address, &[amounts], true);
-            w.sim.execute_manifest(m, vec![w.accounts[a].badge()]).expect_commit_success();
-        }
-        for i in &idx {
-            let v = w.sim.get_component_vaults(component, res[*i].0);
-            assert_eq!(v.len(), 1);
-            info.vaults.push(v[0]);
-        }
-        for a in 0..NACC {
-            let v = w.sim.get_component_vaults(w.accounts[a].address, unit);
+            let m = contribute_manifest(&res, &info, acct, &[amounts], false, Some((a0, w.badge)));
+            w.sim.execute_manifest(m, signers.clone()).expect_commit_success();
+            let v = w.sim.get_component_vaults(acct, unit);
             assert_eq!(v.len(), 1);
             info.unit_vaults.push(v[0]);
+            let held = fungible_vault_balance(w.db(), &v[0]).unwrap();
+            let b = ManifestBuilder::new().lock_fee_from_faucet().withdraw_from_account(acct, unit, held).take_all_from_worktop(unit, "units");
+            let m = redeem_call(b, &info, "units").try_deposit_entire_worktop_or_abort(acct, None).build();
+            w.sim.execute_manifest(m, signers).expect_commit_success();
+            if a == 0 {
+                for i in &idx {
+                    let v = w.sim.get_component_vaults(component, res[*i].0);
+                    assert_eq!(v.len(), 1);
+                    info.vaults.push(v[0]);
+                }
+            }
         }
         pools.push(info);
     }
@@ -180,8 +186,13 @@ fn contribute_manifest(
     account: ComponentAddress,
     rows: &[Vec<BigInt>],
     then_redeem_all: bool,
+    manager_proof: Option<(ComponentAddress, ResourceAddress)>,
 ) -> TransactionManifestV1 {
     let mut b = ManifestBuilder::new().lock_fee_from_faucet();
+    // `contribute` is restricted to the pool manager role: the manager co-signs and shows its badge
+    if let Some((manager, badge)) = manager_proof {
+        b = b.create_proof_from_account_of_amount(manager, badge, dec!(1));
+    }
     let mut names: Vec<String> = Vec::new();
     for (k, i) in p.res.iter().enumerate() {
         let total: BigInt = rows.iter().map(|r| r[k].clone()).sum();
@@ -308,7 +319,11 @@ struct Tx {
 }
 
 fn exec(w: &mut World, m: TransactionManifestV1, signer: usize, ctx: &str) -> Result<Tx, Failure> {
-    let proofs = vec![w.accounts[signer].badge()];
+    // account 0 (the manager) co-signs everything; whether its badge is shown is up to the manifest
+    let mut proofs = vec![w.accounts[0].badge()];
+    if signer != 0 {
+        proofs.push(w.accounts[signer].badge());
+    }
     let run = w.run(m, proofs);
     if let Some(p) = &run.panic {
         return Err(fail("host panic while executing a pool transaction", format!("{}: {}", ctx, p)));
@@ -348,6 +363,25 @@ fn exec(w: &mut World, m: TransactionManifestV1, signer: usize, ctx: &str) -> Re
             Ok(Tx { ok: false, class: Some(class), err: s, outputs: vec![] })
         }
     }
+}
+
+fn pool_error_label(err: &str) -> &'static str {
+    for (needle, label) in [
+        ("DecimalOverflowError", "pool error: DecimalOverflowError"),
+        ("ZeroPoolUnitsMinted", "pool error: ZeroPoolUnitsMinted"),
+        ("LargerContributionRequiredToMeetRatio", "pool error: LargerContributionRequiredToMeetRatio"),
+        ("NonZeroPoolUnitSupplyButZeroReserves", "pool error: NonZeroPoolUnitSupplyButZeroReserves"),
+        ("RedeemedZeroTokens", "pool error: RedeemedZeroTokens"),
+        ("ContributionOfEmptyBucketError", "pool error: ContributionOfEmptyBucketError"),
+        ("NoMinimumRatio", "pool error: NoMinimumRatio"),
+        ("MaxMintAmountExceeded", "resource error: MaxMintAmountExceeded"),
+        ("InvalidGetRedemptionAmount", "pool error: InvalidGetRedemptionAmount"),
+    ] {
+        if err.contains(needle) {
+            return label;
+        }
+    }
+    "pool error: other"
 }
 
 /// Redemption value as returned by `get_redemption_value`, per pool resource.
@@ -539,7 +573,7 @@ fn case(g: &mut Gen, w: &mut World) -> Result<(), Failure> {
                 );
                 log.push(desc.clone());
                 let ctx = format!("{}\nstate before: {}", log.join("\n"), before.render());
-                let manifest = contribute_manifest(&ext.res, &p, w.accounts[user].address, &rows, roundtrip);
+                let manifest = contribute_manifest(&ext.res, &p, w.accounts[user].address, &rows, roundtrip, Some((w.accounts[0].address, w.badge)));
                 let tx = exec(w, manifest, user, &ctx)?;
                 let obs = observe(w, &ext, &p)?;
                 if !tx.ok {
@@ -554,6 +588,10 @@ fn case(g: &mut Gen, w: &mut World) -> Result<(), Failure> {
                         ));
                     }
                     g.label(if insufficient { "contribute: account balance insufficient (predicted failure)" } else { "contribute: rejected by the pool" });
+                    if !insufficient {
+                        g.label(pool_error_label(&tx.err));
+                        g.count("contribute_rejected", 1);
+                    }
                     log.push(format!("  -> failed: {}", tx.err));
                     continue;
                 }
@@ -589,6 +627,7 @@ fn case(g: &mut Gen, w: &mut World) -> Result<(), Failure> {
                         return Err(fail("pool unit supply changed over contribute+redeem-all", format!("{}\nafter: {}", ctx, obs.render())));
                     }
                     g.label("round trip in one transaction");
+                    g.count("roundtrip_ok", 1);
                     if dust_state && m.reserves.iter().any(|r| r.is_positive()) {
                         g.label("round trip in the dust state (supply 0, reserves > 0)");
                     }
@@ -676,6 +715,7 @@ fn case(g: &mut Gen, w: &mut World) -> Result<(), Failure> {
                 if !contributors.contains(&user) {
                     contributors.push(user);
                 }
+                g.count("contribute_ok", 1);
                 log.push(format!("  -> ok, minted {}, {}", show(&minted), obs.render()));
                 m = obs;
                 // (2) through get_redemption_value of exactly the units received
@@ -744,6 +784,8 @@ fn case(g: &mut Gen, w: &mut World) -> Result<(), Failure> {
                         g.label("redeem: more units than held (predicted failure)");
                     } else if tx.class == Some(ErrClass::Pool) {
                         g.label("redeem: rejected by the pool");
+                        g.label(pool_error_label(&tx.err));
+                        g.count("redeem_rejected", 1);
                     } else if tx.class == Some(ErrClass::Vault) {
                         return Err(fail("redeem computed an amount the reserve vault cannot pay", format!("{}\nerror {}", ctx, tx.err)));
                     } else {
@@ -801,6 +843,7 @@ fn case(g: &mut Gen, w: &mut World) -> Result<(), Failure> {
                 if quoted.is_some() {
                     g.count("quote_equals_payment_checks", 1);
                 }
+                g.count("redeem_ok", 1);
                 if skewed {
                     redeemed_after_skew = true;
                 }
@@ -817,6 +860,23 @@ fn case(g: &mut Gen, w: &mut World) -> Result<(), Failure> {
                 m = obs;
             }
             // ---- protected deposit --------------------------------------------------------------
+            6 if g.bool() => {
+                // contribute is restricted to the manager role: without the badge it must be refused
+                let user = 1 + g.index(3);
+                let amounts: Vec<BigInt> = (0..n).map(|k| if m.bal[user][k] >= unit(dv[k]) { unit(dv[k]) } else { BigInt::zero() }).collect();
+                log.push(format!("user{} contribute without the manager badge", user));
+                let ctx = format!("{}\nstate before: {}", log.join("\n"), before.render());
+                let manifest = contribute_manifest(&ext.res, &p, w.accounts[user].address, &[amounts], false, None);
+                let tx = exec(w, manifest, user, &ctx)?;
+                let obs = observe(w, &ext, &p)?;
+                if tx.ok || tx.class != Some(ErrClass::Auth) {
+                    return Err(fail("contribute without the manager badge was not refused by auth", format!("{}\noutcome: {}", ctx, if tx.ok { "success".into() } else { tx.err.clone() })));
+                }
+                if obs != m {
+                    return Err(fail("a failed pool transaction changed balances", format!("{}\nerror {}", ctx, tx.err)));
+                }
+                g.label("protected op rejected (auth / funds, predicted)");
+            }
             3 | 6 => {
                 let unauthorized = op == 6;
                 let k = g.index(n);
@@ -828,7 +888,7 @@ fn case(g: &mut Gen, w: &mut World) -> Result<(), Failure> {
                 let acct = w.accounts[who].address;
                 let mut b = ManifestBuilder::new().lock_fee_from_faucet();
                 if !unauthorized {
-                    b = b.create_proof_from_account_of_amount(acct, w.badge, dec!(1));
+                    b = b.create_proof_from_account_of_amount(w.accounts[0].address, w.badge, dec!(1));
                 }
                 if amount.is_positive() {
                     b = b.withdraw_from_account(acct, ext.res[p.res[k]].0, d(&amount));
